@@ -14,7 +14,7 @@ Local Open Scope Z_scope.
    i.e. strictly less than  burst + rate * (window + 1 ns).  The last summand (< one nanosecond of refill)
    is x/time/rate's truncation of the wait time to whole nanoseconds; it is attained (C15_bound_slack_attained),
    so the literal  burst + rate * window  can be exceeded by less than rate * 10^-9 token. *)
-Theorem C15_bound : forall (o : opts) (k : addr) (t0 t1 : Z) (h : list lev),
+Theorem C15_bound : forall (o : opts) (k : lim_addr) (t0 t1 : Z) (h : list lev),
   0 < o_limit o -> 0 <= o_burst o -> lim_sorted h = true -> has_gc h = false -> t0 <= t1 ->
   lim_granted o k t0 t1 h (lim_decisions o [] h) * SCALE
     <= o_burst o * SCALE + o_limit o * (t1 - t0) + (o_limit o - 1).
@@ -24,7 +24,7 @@ Print Assumptions C15_bound.
 (* The same bound with arbitrary collector runs interleaved, provided burst <= 60 * rate
    (entryTtl = 60 s: an entry idle for longer than a minute has refilled completely, so dropping it
    loses nothing). *)
-Theorem C15_bound_gc : forall (o : opts) (k : addr) (t0 t1 : Z) (h : list lev),
+Theorem C15_bound_gc : forall (o : opts) (k : lim_addr) (t0 t1 : Z) (h : list lev),
   0 < o_limit o -> 0 <= o_burst o -> lim_sorted h = true -> o_burst o <= 60 * o_limit o -> t0 <= t1 ->
   lim_granted o k t0 t1 h (lim_decisions o [] h) * SCALE
     <= o_burst o * SCALE + o_limit o * (t1 - t0) + (o_limit o - 1).
@@ -32,7 +32,7 @@ Proof. exact bound_gc. Qed.
 Print Assumptions C15_bound_gc.
 
 (* The bound for the options as configured (after setDefault), whatever was omitted. *)
-Theorem C15_bound_configured : forall (cfg : opts) (k : addr) (t0 t1 : Z) (h : list lev),
+Theorem C15_bound_configured : forall (cfg : opts) (k : lim_addr) (t0 t1 : Z) (h : list lev),
   let o := set_default cfg in
   lim_sorted h = true -> (has_gc h = true -> o_burst o <= 60 * o_limit o) -> t0 <= t1 ->
   lim_granted o k t0 t1 h (lim_decisions o [] h) * SCALE
@@ -46,7 +46,7 @@ Print Assumptions C15_bound_configured.
 (* Finding K3: with burst > 60 * rate the bound fails once the collector runs: a collected bucket is
    reborn full.  Witness: rate 1, burst 1000; 2000 granted within 60.000000001 s, and the second
    arrival is refused when the collector does not run. *)
-Theorem C15_gc_refuted : exists (o : opts) (k : addr) (t0 t1 : Z) (h : list lev),
+Theorem C15_gc_refuted : exists (o : opts) (k : lim_addr) (t0 t1 : Z) (h : list lev),
   0 < o_limit o /\ 0 <= o_burst o /\ lim_sorted h = true /\ t0 <= t1 /\ 60 * o_limit o < o_burst o /\
   ~ (lim_granted o k t0 t1 h (lim_decisions o [] h) * SCALE
        <= o_burst o * SCALE + o_limit o * (t1 - t0) + (o_limit o - 1)).
@@ -61,7 +61,7 @@ Print Assumptions C15_gc_refuted.
 
 (* The slack of one nanosecond of refill is attained (rate 3, burst 1): the literal bound
    burst + rate * window is exceeded by 10^-9 token. *)
-Theorem C15_bound_slack_attained : exists (o : opts) (k : addr) (t0 t1 : Z) (h : list lev),
+Theorem C15_bound_slack_attained : exists (o : opts) (k : lim_addr) (t0 t1 : Z) (h : list lev),
   0 < o_limit o /\ lim_sorted h = true /\ has_gc h = false /\ t0 <= t1 /\
   lim_granted o k t0 t1 h (lim_decisions o [] h) * SCALE = o_burst o * SCALE + o_limit o * (t1 - t0) + 1.
 Proof.
@@ -74,7 +74,7 @@ Print Assumptions C15_bound_slack_attained.
 (* Isolation: the decisions taken for key k under ANY history (any order, any timestamps, collector
    runs included) are the decisions taken when only k's own arrivals (and the collector runs) happen:
    no traffic of another subnet can cause a refusal. *)
-Theorem C15_isolation : forall (o : opts) (k : addr) (h : list lev),
+Theorem C15_isolation : forall (o : opts) (k : lim_addr) (h : list lev),
   lim_decisions_for o k h (lim_decisions o [] h) =
   lim_decisions_for o k (filter (touches o k) h) (lim_decisions o [] (filter (touches o k) h)).
 Proof. exact isolation. Qed.
@@ -89,9 +89,9 @@ Theorem C15_defaults :
   (forall o, o_v6 (set_default o) = if (o_v6 o <=? 0) || (128 <? o_v6 o) then 48 else o_v6 o) /\
   (forall o, o_burst o <= 0 -> o_burst (set_default o) = o_limit (set_default o)) /\
   (forall o, 0 < o_limit o -> 0 < o_burst o -> 1 <= o_v4 o <= 32 -> 1 <= o_v6 o <= 128 -> set_default o = o) /\
-  (forall o x, o_v4 o = 24 -> mask_addr o (A4 x) = A4 (x / 256 * 256)%N) /\
-  (forall o x, o_v6 o = 48 -> (x / two32 <> 65535)%N -> mask_addr o (A6 x) = A6 (x / 2 ^ 80 * 2 ^ 80)%N) /\
-  (forall o x, (x < two32)%N -> mask_addr o (A6 (65535 * two32 + x)) = mask_addr o (A4 x)) /\
+  (forall o x, o_v4 o = 24 -> mask_addr o (LA4 x) = LA4 (x / 256 * 256)%N) /\
+  (forall o x, o_v6 o = 48 -> (x / two32 <> 65535)%N -> mask_addr o (LA6 x) = LA6 (x / 2 ^ 80 * 2 ^ 80)%N) /\
+  (forall o x, (x < two32)%N -> mask_addr o (LA6 (65535 * two32 + x)) = mask_addr o (LA4 x)) /\
   (forall w bits x y, mask_bits w bits x = mask_bits w bits y <-> (x / 2 ^ (w - bits) = y / 2 ^ (w - bits))%N).
 Proof.
   split; [exact default_masks_omitted|]. split; [exact default_v4|]. split; [exact default_v6|].
@@ -103,12 +103,12 @@ Print Assumptions C15_defaults.
 (* Decision rule at the listeners: a query the limiter refuses is answered REFUSED on UDP/TCP/TLS and
    503 on HTTP(S) (QUIC: the stream is closed), is not forwarded, and costs nothing more; without a
    global limit the refusal is exactly the client limiter's decision for that address. *)
-Theorem C15_refusal : forall (r : rl) (now : Z) (l : listener) (a : addr) (hit : bool) (c : Z),
+Theorem C15_refusal : forall (r : rl) (now : Z) (l : lim_listener) (a : lim_addr) (hit : bool) (c : Z),
   query_cost l = Some c -> rl_is_ok (snd (rl_allow r now a c)) = false ->
   accept_query r now l a hit = (fst (rl_allow r now a c), refusal l) /\
   forwards (refusal l) = false /\
-  (l = LUdp \/ l = LTcp \/ l = LTls -> refusal l = ORefused) /\
-  (l = LHttp \/ l = LHttps -> refusal l = O503).
+  (l = LmUdp \/ l = LmTcp \/ l = LTls -> refusal l = ORefused) /\
+  (l = LmHttp \/ l = LHttps -> refusal l = O503).
 Proof.
   intros r now l a hit c Q H. split; [now apply (refusal_rule r now l a hit c)|].
   split; [apply forwards_refusal|].
@@ -116,8 +116,8 @@ Proof.
 Qed.
 Print Assumptions C15_refusal.
 
-Theorem C15_refusal_is_client_decision : forall (o : opts) (t : lim_table) (now : Z) (a : addr) (n : Z),
-  a <> ANone ->
+Theorem C15_refusal_is_client_decision : forall (o : opts) (t : lim_table) (now : Z) (a : lim_addr) (n : Z),
+  a <> LANone ->
   rl_allow (mkRl None (Some (o, t))) now a n =
   (mkRl None (Some (o, fst (lim_step o t (EvAllow now a n)))),
    match snd (lim_step o t (EvAllow now a n)) with Some false => RlClient | _ => RlOk end).
@@ -129,10 +129,10 @@ Print Assumptions C15_refusal_is_client_decision.
 (* 192.168.1.1 and 192.168.1.200 share a bucket, 192.168.2.1 does not; ::ffff:192.168.1.7 is charged to
    192.168.1.0/24; 2001:db8:1:2::1 and 2001:db8:1:ffff::9 share 2001:db8:1::/48.  rate 10/s, burst 10. *)
 Definition ex_o : opts := set_default (mkOpts 10 0 0 0).
-Definition ex_a1 : addr := A4 3232235777%N.
-Definition ex_a2 : addr := A4 3232235976%N.
-Definition ex_b : addr := A4 3232236033%N.
-Definition ex_m : addr := A6 (65535 * two32 + 3232235783)%N.
+Definition ex_a1 : lim_addr := LA4 3232235777%N.
+Definition ex_a2 : lim_addr := LA4 3232235976%N.
+Definition ex_b : lim_addr := LA4 3232236033%N.
+Definition ex_m : lim_addr := LA6 (65535 * two32 + 3232235783)%N.
 Definition ex_h : list lev :=
   [EvAllow 0 ex_a1 6; EvAllow 0 ex_b 10; EvAllow 0 ex_a2 5; EvAllow 0 ex_m 4; EvAllow 0 ex_m 1;
    EvAllow 100000000 ex_a2 1; EvAllow 100000000 ex_a1 1; EvGc 200000000; EvAllow 61000000000 ex_b 10].
@@ -145,9 +145,9 @@ Example C15_example :
   lim_granted ex_o (mask_addr ex_o ex_a1) 0 100000000 ex_h (lim_decisions ex_o [] ex_h) = 11 /\
   lim_sorted ex_h = true /\
   mask_addr ex_o ex_m = mask_addr ex_o ex_a1 /\ mask_addr ex_o ex_a2 = mask_addr ex_o ex_a1 /\ mask_addr ex_o ex_b <> mask_addr ex_o ex_a1 /\
-  mask_addr ex_o (A6 (42540766411283801819617087728247635969)) = mask_addr ex_o (A6 (42540766411285010690096470136293687305)) /\
+  mask_addr ex_o (LA6 (42540766411283801819617087728247635969)) = mask_addr ex_o (LA6 (42540766411285010690096470136293687305)) /\
   listener_run (rl_init 0 0 (mkOpts 1 5 0 0)) 0
-    [AQuery LUdp ex_a1 false; AQuery LUdp ex_a1 false; AQuery LUdp ex_a1 false;
-     AQuery LHttp ex_a1 false; AQuery LTcp ex_b false; AConn LQuic ex_a1]
+    [AQuery LmUdp ex_a1 false; AQuery LmUdp ex_a1 false; AQuery LmUdp ex_a1 false;
+     AQuery LmHttp ex_a1 false; AQuery LmTcp ex_b false; AConn LQuic ex_a1]
     = [OAnswered; OAnswered; ORefused; O503; OAnswered; OConnClosed].
 Proof. vm_compute. repeat split; try reflexivity. intros H; discriminate. Qed.
